@@ -13,6 +13,7 @@ import numpy as np
 import c04_util as U
 
 CONFIG = {
+    "source_ties": 'Since round 8 also tied statically: harness/py2v_sched.py re-reads Scheduler._add_to_archives and the routing loops of tell / tell_dqd on every run (Refine/SchedRefine.v).',
     "cone": ["Base/ListUtil.v", "Base/SliceUtil.v", "Model/Store.v", "Model/Scheduler.v", "Proofs/SchedulerProofs.v",
              "Generated/ProtoGen.v", "Refine/ProtoRefine.v", "Properties/C04.v",
              "Model/SchedFacts.v", "Generated/SchedGen.v", "Refine/SchedRefine.v"],
